@@ -20,8 +20,11 @@ the position in list order, later wins) judges the outcome:
 (a) all strings over {a, b, space, U+3042, U+0301, newline, tab} up to a length bound,
 (b) 8 carrier strings x ordered span lists (levels L0..L4, see _levels).
 
-Measured on this machine (16 workers): quick 2.25 M wraps in ~30 s, thorough
-~45 M wraps in ~9 min.
+Measured: quick = 2 048 799 wraps, 798 distinct outcome signatures, ~410 CPU-seconds
+(~30 s wall on 16 idle cores; 300 s were measured while the machine ran at load
+average ~90). thorough = ~40 M wraps planned, ~8 300 CPU-seconds (~9 min on 16 idle
+cores) extrapolated from 5.4 k wraps per CPU-second measured on part (a); shards of
+(a) and (b) are interleaved so a run cut by the wall cap covers both parts evenly.
 """
 import io
 import itertools
